@@ -210,10 +210,19 @@ func newC10Env(c *core.Ctx, cfg c10Cfg) (*c10Env, error) {
 			h = h.WithDefault(e.def)
 		}
 	}
+	// An application hands one IDTransformer value to several handlers: a second store behind
+	// another pattern uses the same value, and is the first of the two to see a change.
+	var other *mockstore.Store
+	if cfg.Trans == "id" || cfg.Trans == "id-proj" {
+		other = mockstore.NewStore()
+	}
 	e.rig = newRig("svc", func(s *res.Service) {
 		typ := res.Model
 		if cfg.Type != "model" {
 			typ = res.Collection
+		}
+		if other != nil {
+			s.Handle("zzother.$id", typ, store.Handler{Store: other, Transformer: tr})
 		}
 		if cfg.Nest {
 			lib := res.NewMux("")
@@ -228,6 +237,19 @@ func newC10Env(c *core.Ctx, cfg c10Cfg) (*c10Env, error) {
 	e.rig.C.NoGoID = true
 	if err := e.rig.start(); err != nil {
 		return nil, err
+	}
+	if other != nil {
+		var v interface{} = map[string]interface{}{"a": 1}
+		if cfg.Type != "model" {
+			v = []interface{}{"x"}
+		}
+		wt := other.Write("warm")
+		err := wt.Create(v)
+		wt.Close()
+		if err != nil {
+			return nil, err
+		}
+		e.c.Obs("shared_transformer_environments", 1)
 	}
 	return e, nil
 }
